@@ -100,6 +100,17 @@ CHECKS.update({
              'claim on events/traces/lines',
         design='5/C06'),
 })
+CHECKS.update({
+    'C15': dict(
+        technique='TLC model checking of Callstacks_MC (image table as a function of the set of first announcements, '
+                  'attribution = greatest load address <= frame); TLC-exported behaviours replayed on the real '
+                  'TracesParser->CallstacksParser chain; recorded executions validated against Pairing!Step o CsStep '
+                  'in TLC; all announcement permutations compared on the code',
+        text='Order independence is an invariant of the design checked over all announcement sequences; both binding '
+             'directions tie the code to it, after every input.',
+        note='addresses BASE + x*0x1000; stand-alone shared-cache records outside launch windows not generated',
+        design='5/C15'),
+})
 PENDING = {}
 
 ALL = ['C%02d' % i for i in range(1, 21)]
